@@ -830,6 +830,8 @@ const STR_BODIES: &[&str] = &[
     "a string literal that is longer than the cell", "sixteen chars ok",
     // control characters written raw inside the quotes (not as escapes)
     "a\tb", "\ttab first", "bell\u{7}!", "form\u{c}feed",
+    // a literal ending in an escaped backslash (the quote behind it closes the string)
+    "C:\\\\", "\\\\", "a\\\\b\\\\",
     // escapes nobody defined: the backslash stays, followed by the character
     "a\\eb", "nul\\0", "q\\'x", "\\q\\q\\q", "\\x41",
     // characters whose case mapping changes their UTF-8 length
